@@ -108,10 +108,14 @@ class RedisMessageBroker(MessageBrokerT):
             keys=["parameters", "_reject_to"],
         )
 
-        if raw_params[0] is not None:
-            params = self.PARAMETERS_CLASS.decode(raw_params[0].decode())
-        else:  # pragma: no cover
-            params = self.PARAMETERS_CLASS()
+        if raw_params[0] is None:
+            # message's data is gone (i.e. it was acked in the meantime) - there is nothing to put back
+            async with self.conn.pipeline(transaction=True) as pipe:
+                self.__unmark_processing(key, pipe)
+                await pipe.execute()
+            return
+
+        params = self.PARAMETERS_CLASS.decode(raw_params[0].decode())
 
         reject_to = "n"  # normal queue
         if raw_params[1] is not None:
